@@ -99,6 +99,10 @@ pub struct StepInfo {
     pub pending_masked: bool,
     pub pending_any: bool,
     pub nested: bool,
+    /// D13: the entry's stack pushes land in the I/O page (supervisor stack pointer wrapped into
+    /// xFE00-xFFFF): a push may rewrite PSR/MCR/a device register in the middle of the entry
+    /// sequence; neither the ISA nor the crate's documentation says what follows
+    pub unspecified: bool,
 }
 
 pub struct RefLc3 {
@@ -507,6 +511,10 @@ impl RefLc3 {
         self.psr &= 0x7FFF;
         let sp = self.regs[6].v;
         self.regs[6].v = sp.wrapping_sub(2);
+        if sp.wrapping_sub(1) >= 0xFE00 || sp.wrapping_sub(2) >= 0xFE00 {
+            info.unspecified = true; // D13
+            return Ok(MRes::Ok);
+        }
         // supervisor stack pushes: PSR at sp-1, PC at sp-2
         let _ = self.write_mem(sp.wrapping_sub(1), RWord::i(old_psr), true, true, cur, ad)?;
         let _ = self.write_mem(sp.wrapping_sub(2), RWord::i(old_pc), true, true, cur, ad)?;
